@@ -39,6 +39,13 @@ WR = ["W1+2w", "W1+2+3w", "W1+1A+2w", "W1+1A+2+3w", "W1+1a", "W1+1A+2a", "W1w", 
 RD = ["R1Lr", "R1LLr", "R1Lf", "R1r", "R1f", "R1LF1Lr", "R1LK1Lr", "R5Lr", "RaLr", "R2Lr", "R2Lf", "R1LLLr", "R1L", "R1",
       "R1LrR1Lr", "R1LfR1Lr", "R1LrR1LrR1Lr", "R1LrR1LLrR1LfR1Lr", "R2LrR2Lr"]
 DL = ["F1", "K1", "F1F1", "K5", "Ka", "F2", "K2", "F1K1", "F0", "F3"]
+# updaters (MemStore::updateHeadersOrThrow protocol): open, locate the stale splicing point, write the fresh prefix, close / abort
+UP = ["U1s1+5u", "U1s1+5u", "U1s1+5+6u", "U1s3+5u", "U1s2+4u", "U1+5s1u", "U1s1+5x", "U1s1x", "U1x", "U1s1+5", "U1", "U1s9+5u",
+      "U2s1+4u", "U1s1+5uU1s1+6u", "U1s1+5uR1LLr", "U1s1+5uW2+7w", "U1s1+5uK1", "U1s1+5uF1", "U1s1+5uW2+7wR1LLr"]
+UPAIRS = [("W1+2+3wU1s1+5u", "R1LLLr"), ("W1+2+3wU1s1+5uW2+7w", "R1LLLr"), ("W1+2+3wU1s1+5u", "U1s1+6u"),
+          ("W1+2+3wU1s1+5u", "K1R1Lr"), ("W1+2+3wU1s1+5u", "W2+7wR1Lr"), ("W1+2+3wR1LLLr", "U1s1+5uW2+7w"),
+          ("W1+2+3wU1s3+5uW2+7w", "R1LLr"), ("W1+2+3wU1s1+5x", "R1LLr"), ("W1+2+3wU1s1+5uF1", "R1LLLr"),
+          ("W1+2+3wU1s1+5uK1", "R1LLLr"), ("W1+2+3wU1s1+5uR1LLf", "W2+7wW3+1w")]
 PAIRS = [("W1+1w", "R1Lr"), ("W1+1A+2w", "R1LLr"), ("W1+1A+2a", "R1LLr"), ("W1+1w", "W1+2w"), ("W1+1w", "W5+2w"),
          ("W1+1wR1Lr", "F1"), ("W1+1wR1Lr", "K1"), ("W1+1wR1Lf", "R1Lf"), ("W1+1wR1Lr", "W1+2w"), ("W1+1a", "R1Lr"),
          ("W1+1AF1w", "R1Lr"), ("W1+1wF1", "R1Lr"), ("W1+1wK1", "R1LLr"), ("W1+1wR1LF1Lr", "W5+3w"), ("W1+1w", "X1+2w"),
@@ -62,10 +69,10 @@ def rand_script(rng):
     elif k < 0.8:     # deleter
         parts = [rng.choice(DL + RD) for _ in range(rng.choice([1, 2, 3]))]
     elif k < 0.92:    # mixed
-        parts = [rng.choice(WR + RD + DL) for _ in range(rng.choice([1, 2, 3, 4]))]
+        parts = [rng.choice(WR + RD + DL + UP) for _ in range(rng.choice([1, 2, 3, 4]))]
     else:             # noise
         alphabet = ["W1", "W5", "W2", "Wa", "X1", "P1", "+1", "+2", "A", "w", "a", "R1", "R5", "Ra", "R2", "L", "r", "f",
-                    "F1", "F2", "K1", "K5", "W0", "R0", "K0"]
+                    "F1", "F2", "K1", "K5", "W0", "R0", "K0", "U1", "U2", "s1", "s2", "u", "x"]
         parts = [rng.choice(alphabet) for _ in range(rng.randrange(0, 10))]
     return "".join(parts)
 
@@ -115,6 +122,15 @@ def gen_cases(rng, n):
     for scr, pre in PREFIXED:
         for bits in itertools.product("01", repeat=L):
             cases.append(mk(list(scr), "0" * pre + "".join(bits)))
+    # updating: thread 0 first writes a complete 2-slice entry (35 steps), then every prefix of length L, and random bursts
+    for a, b in UPAIRS:
+        for bits in itertools.product("01", repeat=L - 2):
+            cases.append(mk([a, b], "0" * 35 + "".join(bits)))
+        for _ in range(60 if quick else 600):
+            sch = "0" * rng.choice([35, 35, 35, 50, 70, 90, 110, 130, 150])
+            for _ in range(rng.randrange(1, 8)):
+                sch += str(rng.randrange(2)) * rng.choice([1, 2, 3, 5, 8, 13, 21, 34, 55, 90])
+            cases.append(mk([a, b], sch))
     # bursts of random length at the interesting moments: thread 0 runs k steps, then thread 1 runs j steps, ...
     for scr, pre in PREFIXED:
         for _ in range(30 if quick else 300):
@@ -131,8 +147,13 @@ def gen_cases(rng, n):
             scripts = [w + (rng.choice(RD + DL + [""]) if rng.random() < 0.5 else "")]
             for _ in range(nt - 1):
                 k = rng.random()
-                scripts.append("".join(rng.choice(RD) for _ in range(rng.choice([1, 1, 2, 3]))) if k < 0.7
-                               else rng.choice(RD) + rng.choice(DL) + rng.choice(RD) if k < 0.85 else rand_script(rng))
+                scripts.append("".join(rng.choice(RD) for _ in range(rng.choice([1, 1, 2, 3]))) if k < 0.45
+                               else rng.choice(RD) + rng.choice(DL) + rng.choice(RD) if k < 0.55
+                               else rng.choice(UP) + rng.choice(RD + WR + [""]) if k < 0.85
+                               else rng.choice(["W2+7w", "W3+1w", "W2+7wR1LLr", "W4+1w"]) + rng.choice(RD + UP) if k < 0.93
+                               else rand_script(rng))
+            if rng.random() < 0.4:
+                scripts[0] += rng.choice(UP)
             lead = rng.choice([20, 27, 30, 36, 36, 40, 45, 50])
             scripts = [re.sub(r"([FP])(\d)", lambda m: m.group(1) + str(int(m.group(2)) % nmap), s) for s in scripts]
             cases.append(mk(scripts, "0" * lead + rand_schedule(rng, nt, scripts), nmap))
@@ -145,7 +166,7 @@ def gen_cases(rng, n):
 
 
 # ---------------------------------------------------------------- oracle (independent statement of the property)
-EV = re.compile(r"^(\d)(@|!|#|~|[WXPRFK+AwaLrf])(.*)$")
+EV = re.compile(r"^(\d)(@|!|#|~|[WXPRFK+AwaLrfUsux])(.*)$")
 
 
 def keyname(ch, nmap):
@@ -169,6 +190,24 @@ def parse(out):
     return parts[0].split(), anchors, slices, misc, pool, modes, probe
 
 
+class Inc:
+    """one incarnation of an anchor: what a successful open-for-writing (or openForUpdating's fresh anchor) created"""
+    def __init__(self, anchor, no, key, writer):
+        self.anchor, self.no, self.key, self.writer = anchor, no, key, writer
+        self.chain = []          # slice ids in chain order (for an updated entry: fresh prefix ++ old suffix)
+        self.state = "writing"   # writing / appending / closed / aborted / updating / publishing / superseded
+        self.splice = None       # superseded entry: last slice of the replaced prefix
+        self.dead = False        # its slices were given back (or it never had a key: nothing to give back)
+
+    def expected_free(self):
+        """the slices that freeing this entry must return to the pool"""
+        if self.key is None:
+            return []            # empty() entry: freeChain() does not walk the chain (quirk, see corpus)
+        if self.splice is not None:
+            return self.chain[:self.chain.index(self.splice) + 1] if self.splice in self.chain else None
+        return list(self.chain)
+
+
 def oracle(case, out):
     if out.startswith(("CRASH", "EXC", "ERR", "FUEL")):
         return ("oracle:crash", "implementation crashed / threw: " + out[:200])
@@ -180,7 +219,7 @@ def oracle(case, out):
         start_of = {}      # event index of a return -> index of the '@' that started it
         last_use = [None] * n
         for i, e in enumerate(events):
-            if e in ("-",):
+            if e == "-":
                 continue
             if e == "LIVELOCK":
                 return ("oracle:livelock", "an operation did not finish within the step bound")
@@ -194,147 +233,313 @@ def oracle(case, out):
                 pass
             else:
                 start_of[i] = last_use[t]
-        # hold of a thread ends at the use step that starts its releasing call (w a r f)
-        release_at = set()
+        release_at = set()    # use steps that start a releasing call (w a r f u x): the hold ends there
+        publish_at = set()    # use steps that start closeForUpdating
         for i, e in enumerate(events):
             m = EV.match(e)
-            if m and m.group(2) in "warf" and i in start_of:
-                release_at.add(start_of[i])
+            if m and i in start_of:
+                if m.group(2) in "warfux":
+                    release_at.add(start_of[i])
+                if m.group(2) == "u":
+                    publish_at.add(start_of[i])
         # ---- pass 2
-        mode = ["I"] * n           # I / W / A / R
-        held = [None] * n          # anchor
+        mode = ["I"] * n           # I / W / A / R / U
+        held = [None] * n          # anchor (U: the stale anchor)
+        fresh = [None] * n         # U: the fresh anchor
+        ussp = [None] * n          # U: stale.splicingPoint
+        fname = [None] * n         # U: fresh.name
+        epoch = [0] * nmap         # per name: bumped when a relocation of the name starts and when it is over
         holding = [False] * n      # between the return of the opening call and the use step of the releasing call
-        inc = [0] * nmap           # incarnations: number of successful writer opens of the anchor
-        ikey = [None] * nmap       # key character of the current incarnation (None: no key was set)
-        iwriter = [None] * nmap    # thread that created the current incarnation
-        istate = ["none"] * nmap   # none / writing / appending / closed / aborted
-        deleted = [[] for _ in range(nmap)]   # (incarnation, index of the completion event of a delete request aimed at it)
-        pending_del = {}           # use-step index -> (anchor, incarnation) for F/K (evaluated at the return event)
-        owner = [None] * nmap      # slice -> (anchor, incarnation, size) or None
+        cur = [None] * nmap        # current incarnation of each anchor (Inc) or None
+        count = [0] * nmap
+        deleted = [[] for _ in range(nmap)]   # (incarnation number, index of the completion event of a delete request aimed at it)
+        fn = list(range(nmap))     # name -> fileno (relocations by closeForUpdating)
+        sizes = {}                 # slice -> size stored by its writer
+        incs = []                  # all incarnations whose slices may still be in use
         lastlook = [None] * n
-        inc_at = {}                # event index of '@' -> snapshot of inc, ikey (needed for delete requests)
+        snap = {}                  # '@' index -> (incarnation numbers, keys, states, fn)
+        opfrees = [[] for _ in range(n)]
+        settled = [False] * n
+        inpool = set(range(nmap))  # slices StoreMap has given back (or never used)
+
+        def retire(old, f, e):
+            """anchor f is being recycled by the opener of event e: its old entry must have given back its slices"""
+            if old is None or old.dead:
+                return None
+            need = old.expected_free()
+            if need:
+                # ... possibly by an operation of another thread that has freed the chain but has not returned yet
+                for u in range(n):
+                    if not settled[u] and sorted(opfrees[u]) == sorted(need):
+                        settled[u] = True
+                        old.dead = True
+                        return None
+                return ("oracle:slice-leak", "anchor %d was recycled by %s but the slices %s of its old entry were not given back" % (f, e, need))
+            old.dead = True
+            return None
+
+        def owners(sid):
+            return [x for x in incs if not x.dead and sid in x.chain]
+
+        def new_inc(f, key, t, state):
+            count[f] += 1
+            x = Inc(f, count[f], key, t)
+            x.state = state
+            cur[f] = x
+            incs.append(x)
+            return x
+
+        def check_frees(t, e, target):
+            """at the return of an operation: the slices it gave back are exactly those of ONE entry, the one it was entitled to free"""
+            fr = opfrees[t]
+            opfrees[t] = []
+            if settled[t]:
+                settled[t] = False   # an opener that recycled the anchor meanwhile has already matched these slices
+                return None
+            if not fr:
+                return None
+            cands = [x for x in incs if not x.dead and x.expected_free() is not None and sorted(x.expected_free()) == sorted(fr)
+                     and (target is None or x.anchor == target)]
+            if not cands:
+                near = [x for x in incs if not x.dead and set(fr) & set(x.chain)]
+                return ("oracle:free-set-mismatch",
+                        "operation %s gave back slices %s; no entry%s has exactly these slices to give back (entries touched: %s)"
+                        % (e, fr, "" if target is None else " at anchor %d" % target,
+                           ["anchor %d #%d %s chain=%s splice=%s must-free=%s" % (x.anchor, x.no, x.state, x.chain, x.splice, x.expected_free()) for x in near]))
+            x = cands[0]
+            x.dead = True
+            return None
+
         for i, e in enumerate(events):
             if e == "-":
                 continue
             m = EV.match(e)
             t, k, rest = int(m.group(1)), m.group(2), m.group(3)
             if k == "#":
-                return ("oracle:assert", "an assert()/Must() failed in thread %d although every client follows the protocol" % t)
+                return ("oracle:assert", "an assert()/Must() failed in thread %d although every client follows the protocol (%s)" % (t, e))
             if k == "@":
-                inc_at[i] = (list(inc), list(ikey))
+                snap[i] = ([x.no if x else 0 for x in cur], [x.key if x else None for x in cur],
+                           [x.state if x else "none" for x in cur], list(fn), list(epoch))
                 if i in release_at:
                     holding[t] = False
+                if i in publish_at:
+                    # closeForUpdating starts: from now on the fresh anchor is the entry: fresh prefix ++ old suffix
+                    st, fr = cur[held[t]], cur[fresh[t]]
+                    if ussp[t] not in st.chain:
+                        return ("oracle:harness-protocol", "splicing point %s is not in the stale chain %s" % (ussp[t], st.chain))
+                    fr.chain = fr.chain + st.chain[st.chain.index(ussp[t]) + 1:]
+                    fr.state = "publishing"
+                    st.splice = ussp[t]
+                    fn[keyname(fr.key, nmap)] = fresh[t]          # relocate(stale.name, fresh.fileNo), some time during the call
+                    epoch[keyname(fr.key, nmap)] += 1             # odd: a relocation of this name is in progress
                 continue
             if k == "!":
                 continue
             if k == "~":
                 sid = int(rest)
-                if not (0 <= sid < nmap) or owner[sid] is None:
-                    return ("oracle:double-free", "slice %s was given back to the pool although it is not in use (event %s)" % (rest, e))
-                f = owner[sid][0]
-                for u in range(n):
-                    if holding[u] and held[u] == f and mode[u] == "R":
-                        return ("oracle:slice-freed-under-reader",
-                                "slice %d of entry %d was freed by thread %d while thread %d holds the entry open for reading" % (sid, f, t, u))
-                    if u != t and holding[u] and held[u] == f and mode[u] in "WA":
-                        return ("oracle:slice-freed-under-writer",
-                                "slice %d of entry %d was freed by thread %d while thread %d holds the entry open for writing" % (sid, f, t, u))
-                owner[sid] = None
+                own = owners(sid) if 0 <= sid < nmap else []
+                if not own:
+                    return ("oracle:double-free", "slice %s was given back to the pool although no entry uses it (event %s)" % (rest, e))
+                for x in own:
+                    f = x.anchor
+                    if cur[f] is not x:
+                        continue
+                    for u in range(n):
+                        if holding[u] and held[u] == f and mode[u] in "RU":
+                            if x.splice is not None and sid not in x.expected_free():
+                                return ("oracle:shared-suffix-freed-under-stale-reader",
+                                        "slice %d (suffix shared by the updated entry and its stale version at anchor %d) was freed by thread %d "
+                                        "while thread %d still holds the stale version open for reading" % (sid, f, t, u))
+                            return ("oracle:slice-freed-under-reader",
+                                    "slice %d of entry %d was freed by thread %d while thread %d holds the entry open for reading" % (sid, f, t, u))
+                        if u != t and holding[u] and ((held[u] == f and mode[u] in "WA") or (fresh[u] == f and mode[u] == "U")):
+                            return ("oracle:slice-freed-under-writer",
+                                    "slice %d of entry %d was freed by thread %d while thread %d holds the entry open for writing" % (sid, f, t, u))
+                for x in own:
+                    if x.splice is not None and x.expected_free() is not None and sid not in x.expected_free():
+                        x.chain.remove(sid)      # the shared suffix goes with the updated entry; nobody reads the stale version
+                opfrees[t].append(sid)
+                inpool.add(sid)
                 continue
             st = start_of.get(i)
             if k in "WXP":
                 if rest[1] == "+":
                     f = int(rest[2:])
                     for u in range(n):
-                        if u != t and holding[u] and held[u] == f:
+                        if u != t and holding[u] and (held[u] == f or fresh[u] == f):
                             return ("oracle:writer-conflict:" + mode[u],
                                     "thread %d opened entry %d for writing while thread %d holds it in mode %s" % (t, f, u, mode[u]))
+                    v = check_frees(t, e, f)
+                    if v:
+                        return v
+                    v = retire(cur[f], f, e)
+                    if v:
+                        return v
                     mode[t], held[t], holding[t] = "W", f, True
-                    inc[f] += 1
-                    ikey[f] = rest[0] if k != "P" and not keyzero(rest[0]) else None
-                    iwriter[f] = t
-                    istate[f] = "writing"
-                elif mode[t] != "I":
-                    return ("oracle:harness-protocol", "event %s in mode %s" % (e, mode[t]))
+                    new_inc(f, rest[0] if k != "P" and not keyzero(rest[0]) else None, t, "writing")
+                else:
+                    if mode[t] != "I":
+                        return ("oracle:harness-protocol", "event %s in mode %s" % (e, mode[t]))
+                    v = check_frees(t, e, -1)
+                    if v:
+                        return v
             elif k == "+":
                 z, sid = rest.split(":")
                 if sid != "-":
                     sid = int(sid)
-                    if owner[sid] is not None:
-                        return ("oracle:slice-reused", "slice %d was handed to a writer while entry %d still owns it" % (sid, owner[sid][0]))
-                    owner[sid] = (held[t], inc[held[t]], int(z), ikey[held[t]] is not None)
+                    if sid not in inpool:
+                        return ("oracle:slice-reused", "slice %d was handed to a writer although StoreMap has not given it back since its last use" % sid)
+                    inpool.discard(sid)
+                    x = cur[fresh[t]] if mode[t] == "U" else cur[held[t]]
+                    x.chain.append(sid)
+                    sizes[sid] = int(z)
             elif k == "A":
                 mode[t] = "A"
-                istate[held[t]] = "appending"
+                cur[held[t]].state = "appending"
             elif k == "w":
-                if iwriter[held[t]] == t and istate[held[t]] in ("writing", "appending"):
-                    istate[held[t]] = "closed"
+                x = cur[held[t]]
+                if x.writer == t and x.state in ("writing", "appending"):
+                    x.state = "closed"
                 mode[t], held[t] = "I", None
             elif k == "a":
                 f = held[t]
-                if iwriter[f] == t and istate[f] in ("writing", "appending"):
-                    istate[f] = "aborted"
-                    deleted[f].append((inc[f], i))
+                x = cur[f]
+                v = check_frees(t, e, f)
+                if v:
+                    return v
+                if x.writer == t and x.state in ("writing", "appending"):
+                    x.state = "aborted"
+                    deleted[f].append((x.no, i))
                 mode[t], held[t] = "I", None
             elif k == "R":
                 if rest[1] == "+":
                     f = int(rest[2:])
                     kc = rest[0]
-                    if keyname(kc, nmap) != f:
-                        return ("oracle:reader-wrong-anchor", "key %s opened at anchor %d" % (kc, f))
                     for u in range(n):
-                        if u != t and holding[u] and held[u] == f and mode[u] == "W":
+                        if u != t and holding[u] and ((held[u] == f and mode[u] == "W") or (fresh[u] == f and mode[u] == "U" and cur[f].state == "updating")):
                             return ("oracle:reader-with-exclusive-writer",
                                     "thread %d opened entry %d for reading while thread %d holds it open for writing, not appending" % (t, f, u))
-                    if inc[f] == 0 or ikey[f] != kc:
+                    x = cur[f]
+                    if x is None or x.key != kc:
                         return ("oracle:reader-wrong-key",
-                                "thread %d opened entry %d under key %s but the entry was created under key %s" % (t, f, kc, ikey[f]))
-                    if istate[f] not in ("closed", "appending"):
+                                "thread %d opened entry %d under key %s but the entry was created under key %s" % (t, f, kc, x.key if x else None))
+                    if x.state not in ("closed", "appending", "publishing", "superseded"):
                         return ("oracle:reader-incomplete",
-                                "thread %d opened entry %d for reading while its writer is in state %s" % (t, f, istate[f]))
+                                "thread %d opened entry %d for reading while its writer is in state %s" % (t, f, x.state))
                     for (c, done) in deleted[f]:
-                        if c == inc[f] and st is not None and done < st:
+                        if c == x.no and st is not None and done < st:
                             return ("oracle:deleted-reopened",
-                                    "thread %d opened entry %d for reading although a delete request against this entry had completed "
-                                    "(event #%d) before the open call started (event #%d)" % (t, f, done, st))
+                                    "thread %d opened entry %d for reading although a delete request against this entry (or the update that replaced "
+                                    "it) had completed (event #%d) before the open call started (event #%d)" % (t, f, done, st))
                     mode[t], held[t], holding[t] = "R", f, True
                     lastlook[t] = None
             elif k == "L":
                 f = held[t]
+                x = cur[f]
                 body = rest[1:-1]
                 if body.endswith("..."):
                     return ("oracle:reader-chain-loop", "reader %d saw a chain longer than the number of slices: %s" % (t, e))
-                seen = [tuple(int(v) for v in x.split(":")) for x in body.split(",")] if body else []
-                for sid, z in seen:
-                    if not (0 <= sid < nmap) or owner[sid] is None or owner[sid][0] != f or owner[sid][1] != inc[f]:
-                        return ("oracle:reader-foreign-slice",
-                                "reader %d of entry %d saw slice %d which does not belong to the entry (owner %s)" % (t, f, sid, owner[sid] if 0 <= sid < nmap else None))
-                    if owner[sid][2] != z:
-                        return ("oracle:reader-slice-size", "reader %d saw size %d in slice %d, its writer stored %d" % (t, z, sid, owner[sid][2]))
+                seen = [tuple(int(v) for v in y.split(":")) for y in body.split(",")] if body else []
+                full = [(sid, sizes.get(sid)) for sid in x.chain]
+                if seen != full[:len(seen)]:
+                    return ("oracle:reader-foreign-slice",
+                            "reader %d of entry %d walked %s but the entry consists of %s" % (t, f, seen, full))
+                was = snap[st][2][f] if st in snap else "none"
+                if was in ("closed", "publishing", "superseded") and snap[st][0][f] == x.no and seen != full:
+                    return ("oracle:reader-incomplete-chain",
+                            "reader %d of the complete entry %d walked only %s of %s" % (t, f, seen, full))
                 if lastlook[t] is not None and seen[:len(lastlook[t])] != lastlook[t]:
                     return ("oracle:reader-chain-changed",
                             "reader %d of entry %d saw chain %s and later %s: not an extension" % (t, f, lastlook[t], seen))
                 lastlook[t] = seen
             elif k in "rf":
+                v = check_frees(t, e, held[t])
+                if v:
+                    return v
                 mode[t], held[t] = "I", None
             elif k in "FK":
                 # a delete request; it is aimed at the incarnation that existed when the call started
-                f = int(rest[0]) if k == "F" else keyname(rest[0], nmap)
-                if st is not None and 0 <= f < nmap:
-                    inc0, ikey0 = inc_at[st]
-                    if inc0[f] > 0 and inc0[f] == inc[f] and (k == "F" or (ikey0[f] is not None and ikey0[f] == rest[0])):
-                        deleted[f].append((inc[f], i))
+                if k == "F":
+                    f = int(rest[0])
+                else:
+                    nm = keyname(rest[0], nmap)
+                    f = fn[nm]
+                    if st is not None and (snap[st][3] != fn or snap[st][4][nm] != epoch[nm] or epoch[nm] % 2):
+                        f = None             # raced with a relocation of this name: the anchor it reached is not known to the oracle
+                v = check_frees(t, e, f if k == "F" else None)
+                if v:
+                    return v
+                if st is not None and f is not None and 0 <= f < nmap and cur[f] is not None:
+                    no0, key0 = snap[st][0][f], snap[st][1][f]
+                    if no0 > 0 and no0 == cur[f].no and (k == "F" or (key0 is not None and key0 == rest[0])):
+                        deleted[f].append((cur[f].no, i))
+            elif k == "U":
+                if rest[1] == "+":
+                    sf, ff = (int(v) for v in rest[2:].split(">"))
+                    kc = rest[0]
+                    x = cur[sf]
+                    if x is None or x.key != kc or x.state not in ("closed", "publishing", "superseded"):
+                        return ("oracle:updater-wrong-entry", "thread %d opened entry %d (%s, key %s) for updating under key %s"
+                                % (t, sf, x.state if x else None, x.key if x else None, kc))
+                    for u in range(n):
+                        if u != t and holding[u] and mode[u] == "U" and held[u] == sf:
+                            return ("oracle:two-updaters", "threads %d and %d both update entry %d" % (t, u, sf))
+                        if u != t and holding[u] and (held[u] == ff or fresh[u] == ff):
+                            return ("oracle:writer-conflict:" + mode[u],
+                                    "thread %d got anchor %d as fresh anchor while thread %d holds it in mode %s" % (t, ff, u, mode[u]))
+                    v = check_frees(t, e, ff)
+                    if v:
+                        return v
+                    v = retire(cur[ff], ff, e)
+                    if v:
+                        return v
+                    mode[t], held[t], fresh[t], holding[t], ussp[t] = "U", sf, ff, True, None
+                    fname[t] = fn.index(ff) if ff in fn else None  # fresh.name: the name openKeyless() found the anchor under
+                    new_inc(ff, kc, t, "updating")
+                else:
+                    v = check_frees(t, e, -1)
+                    if v:
+                        return v
+            elif k == "s":
+                ussp[t] = int(rest.split(":")[1])
+            elif k == "u":
+                sf, ff = held[t], fresh[t]
+                cur[ff].state = "closed"
+                cur[sf].state = "superseded"
+                deleted[sf].append((cur[sf].no, i))
+                fn[fname[t]] = sf                                  # relocate(fresh.name, stale.fileNo)
+                epoch[keyname(cur[ff].key, nmap)] += 1
+                mode[t], held[t], fresh[t] = "I", None, None
+            elif k == "x":
+                v = check_frees(t, e, fresh[t])
+                if v:
+                    return v
+                x = cur[fresh[t]]
+                x.state = "aborted"
+                if not x.dead and x.expected_free():
+                    return ("oracle:slice-leak", "abortUpdating did not give back the fresh prefix %s" % x.expected_free())
+                x.dead = True
+                mode[t], held[t], fresh[t] = "I", None, None
         # ---- final state: every thread ended. The lock fields say exactly who still holds what.
-        want_modes = [("I" if mode[t] == "I" else mode[t] + str(held[t])) for t in range(n)]
+        def mstr(t):
+            if mode[t] == "I":
+                return "I"
+            if mode[t] == "U":
+                return "U%d.%d" % (held[t], fresh[t])
+            return mode[t] + str(held[t])
+        want_modes = [mstr(t) for t in range(n)]
         if want_modes != modes and "#" not in modes:
             return ("oracle:harness-mode", "harness modes %s differ from the modes implied by the answers %s" % (modes, want_modes))
-        if any(v != "0" for v in misc["fn"].split(",")):
-            return ("oracle:fileNos", "fileNos changed although nobody updates entries: " + misc["fn"])
+        want_fn = ",".join("0" if fn[i] == i and False else str(fn[i] + 1) for i in range(nmap))
+        got_fn = ",".join(str(int(v)) if int(v) != 0 else str(i + 1) for i, v in enumerate(misc["fn"].split(",")))
+        if want_fn != got_fn:
+            return ("oracle:fileNos", "fileNos %s do not match the relocations of the completed updates (expected name->fileno %s)" % (misc["fn"], fn))
         for f in range(nmap):
-            rd = sum(1 for t in range(n) if mode[t] == "R" and held[t] == f)
-            wr = sum(1 for t in range(n) if mode[t] in "WA" and held[t] == f)
+            rd = sum(1 for t in range(n) if mode[t] == "R" and held[t] == f) + 2 * sum(1 for t in range(n) if mode[t] == "U" and held[t] == f)
+            wr = sum(1 for t in range(n) if (mode[t] in "WA" and held[t] == f) or (mode[t] == "U" and fresh[t] == f))
             ap = sum(1 for t in range(n) if mode[t] == "A" and held[t] == f)
-            exp = [str(rd), "1" if wr else "0", "1" if ap else "0", "0", str(rd), str(wr)]
+            up = sum(1 for t in range(n) if mode[t] == "U" and held[t] == f)
+            exp = [str(rd), "1" if wr else "0", "1" if ap else "0", "1" if up else "0", str(rd), str(wr)]
             if anchors[f][:6] != exp:
                 what = "idle-after-release" if rd + wr == 0 else "counters"
                 return ("oracle:" + what, "all threads ended; entry %d is held by %d readers / %d writers but its lock fields are %s (expected %s)"
@@ -343,11 +548,9 @@ def oracle(case, out):
                 return ("oracle:not-reusable", "nobody holds entry %d any more but openForWritingAt(%d) answered %s" % (f, f, probe[f]))
             if rd + wr > 0 and probe[f] != "-":
                 return ("oracle:held-entry-reopened", "entry %d is still held (%d readers, %d writers) but openForWritingAt(%d) succeeded" % (f, rd, wr, f))
-            # an unheld entry without a key has been freed: its (keyed) slices are back in the pool
-            if rd + wr == 0 and anchors[f][8] == "0.0":
-                for sid in range(nmap):
-                    if owner[sid] is not None and owner[sid][0] == f and owner[sid][3]:
-                        return ("oracle:slice-leak", "entry %d was freed but its slice %d never came back to the pool" % (f, sid))
+            # an unheld anchor without a key has been freed: the slices its entry had to give back are in the pool
+            if rd + wr == 0 and anchors[f][8] == "0.0" and cur[f] is not None and not cur[f].dead and cur[f].expected_free():
+                return ("oracle:slice-leak", "entry %d was freed but its slices %s never came back to the pool" % (f, cur[f].expected_free()))
     except Exception as ex:
         return ("oracle:unparsable", "unparsable implementation output %r (%s: %s)" % (out[:160], type(ex).__name__, ex))
     return None
@@ -369,7 +572,7 @@ def overlapped(out):
     return False
 
 
-STATS = {"R+": 0, "R-": 0, "W+": 0, "W-": 0, "F+": 0, "F-": 0, "freed_slices": 0}
+STATS = {"R+": 0, "R-": 0, "W+": 0, "W-": 0, "F+": 0, "F-": 0, "U+": 0, "U-": 0, "updates_closed": 0, "updates_aborted": 0, "freed_slices": 0}
 
 
 def kind(case, out):
@@ -381,6 +584,12 @@ def kind(case, out):
     for e in w:
         STATS["W+" if e[3] == "+" else "W-"] += 1
     for e in ev:
+        if len(e) > 3 and e[1] == "U":
+            STATS["U+" if e[3] == "+" else "U-"] += 1
+        if e[1:] == "u.":
+            STATS["updates_closed"] += 1
+        if e[1:] == "x.":
+            STATS["updates_aborted"] += 1
         if len(e) == 4 and e[1] == "F":
             STATS["F" + e[3]] += 1
         if len(e) > 2 and e[1] == "~":
@@ -404,7 +613,7 @@ def mutate(rng, case):
         sched.insert(rng.randrange(len(sched) + 1), str(rng.randrange(n)))
     else:
         i = 3 + rng.randrange(n)
-        a[i] = (a[i] if a[i] != "-" else "") + rng.choice(WR + RD + DL)
+        a[i] = (a[i] if a[i] != "-" else "") + rng.choice(WR + RD + DL + UP)
     a[-1] = "".join(sched) or "-"
     return " ".join(a)
 
